@@ -71,15 +71,8 @@ RULES = [
      "mod vm;\n",
      "mod vm;\n#[allow(missing_docs, missing_debug_implementations)]\npub mod symtext;\n#[allow(missing_docs, missing_debug_implementations)]\npub mod engine;\n#[allow(missing_docs, missing_debug_implementations)]\npub mod hirmodel;\n#[allow(missing_docs, missing_debug_implementations)]\npub mod refsem;\n#[allow(missing_docs, missing_debug_implementations)]\npub mod corpus;\n#[allow(missing_docs, missing_debug_implementations)]\npub mod props;\n#[allow(missing_docs, missing_debug_implementations)]\npub mod props2;\n#[allow(missing_docs, missing_debug_implementations)]\npub mod props3;\n#[allow(missing_docs, missing_debug_implementations)]\npub mod exprgen;\n#[allow(missing_docs, missing_debug_implementations)]\npub mod unparse;\n#[allow(missing_docs, missing_debug_implementations)]\npub mod symtpl;\n#[allow(missing_docs, missing_debug_implementations)]\npub mod props4;\n#[allow(missing_docs, missing_debug_implementations)]\npub mod symx_api;\n"),
     # ---- lib.rs: the three calls of the wrapped automaton -------------------
-    ("R11", "lib.rs",
-     "            RegexImpl::Wrap { inner, .. } => Ok(inner\n                .search(&RaInput::new(text).span(pos..text.len()))\n                .map(|m| Match::new(text, m.start(), m.end()))),\n",
-     "            RegexImpl::Wrap { inner, .. } => Ok(crate::symx_api::wrap_search(inner, text, pos)\n                .map(|(s, e)| Match::new(text, s, e))),\n"),
-    ("R12", "lib.rs",
-     "                inner.captures(RaInput::new(text).span(pos..text.len()), &mut locations);\n",
-     "                crate::symx_api::wrap_captures(inner, text, pos, &mut locations);\n"),
-    ("R13", "lib.rs",
-     "            RegexImpl::Wrap { ref inner, .. } => Ok(inner.is_match(text)),\n",
-     "            RegexImpl::Wrap { ref inner, .. } => Ok(crate::symx_api::wrap_is_match(inner, text)),\n"),
+    # R11-R13 (the calls of the wrapped automaton in lib.rs) are applied by regex: see
+    # shim_wrapped_calls below.
     # ---- instrumentation (add-only, in the copy only) ----------------------
     ("I1", "vm.rs",
      "        'fail: loop {\n",
@@ -181,25 +174,27 @@ TPL_RULES = [
      "pub(crate) fn parse_id<'a>(\n    s: &'a str,",
      "pub(crate) fn parse_id<'a, S: crate::symtpl::TStr + ?Sized>(\n    s: &'a S,", "one"),
     ("T12b", "parse.rs", ") -> Option<(&'a str, usize)> {", ") -> Option<(&'a S, usize)> {", "one"),
-    ("T13", "parse.rs", "fn is_id_char(c: char) -> bool {", "fn is_id_char<C: crate::symtpl::TChar>(c: C) -> bool {", "one"),
-    ("T14", "parse.rs", "close.starts_with(is_id_char)", "close.starts_with(is_id_char::<char>)", "all"),
-    ("T15", "parse.rs", "fn is_digit(b: u8) -> bool {", "fn is_digit<B: crate::symtext::ByteLike>(b: B) -> bool {", "one"),
+    # the two pure predicates stay the repository's functions; on a symbolic character / byte
+    # they are answered from a table made by calling them on every value (symtpl::tabulate)
+    ("T13", "parse.rs", "fn is_id_char(c: char) -> bool {", "pub(crate) fn is_id_char(c: char) -> bool {", "one"),
+    ("T14", "parse.rs", "is_id_char(*ch)", "crate::symtpl::TChar::test(*ch, is_id_char, crate::symtpl::ID_CHAR_CLS_ID)", "all"),
+    ("T15", "parse.rs", "is_digit(s.as_bytes()[end])", "crate::symtpl::test_byte(s.as_bytes()[end], is_digit)", "one"),
     ("T16", "parse.rs", "use crate::{", "#[allow(unused_imports)]\nuse crate::symtext::{LitLike as _};\n#[allow(unused_imports)]\nuse crate::symtpl::{TChar as _, TStr as _};\nuse crate::{", "first"),
     ("T20", "lib.rs", "pub fn expand(&self, replacement: &str, dst: &mut String) {",
      "pub fn expand(&self, replacement: &(impl crate::symtpl::TStr + ?Sized), dst: &mut String) {", "one"),
 ]
 
 
-def flip_byte_comparisons(txt):
-    """Inside `fn is_digit`: `b'0' <= b` -> `b >= b'0'` (a symbolic byte is only comparable on
-    the left).  Whatever operators the source uses are kept."""
+def shim_wrapped_calls(txt):
+    """lib.rs: every call `inner.search(..)`, `inner.is_match(..)`, `inner.captures(..)`,
+    `inner.search_half(..)`, `inner.find(..)` of the wrapped regex-automata regex goes through
+    symx_api::RaShim, which reads the Input the repository's code built (haystack, span,
+    anchored) and answers from the model when a symbolic session is installed.  Everything
+    around the call is the repository's text."""
     import re
-    m = re.search(r"fn is_digit<B: crate::symtext::ByteLike>\(b: B\) -> bool \{\n(.*?)\n\}", txt, re.S)
-    if not m:
-        return None
-    flip = {"<=": ">=", "<": ">", ">=": "<=", ">": "<", "==": "==", "!=": "!="}
-    body = re.sub(r"(b'[^']+'|\d+) (<=|>=|<|>|==|!=) b\b", lambda k: "b %s %s" % (flip[k.group(2)], k.group(1)), m.group(1))
-    return txt[:m.start(1)] + body + txt[m.end(1):]
+    pat = re.compile(r"\binner(\s*)\.(search|search_half|is_match|captures|find)\(")
+    new, n = pat.subn(lambda m: "crate::symx_api::RaShim(inner)%s.%s(" % (m.group(1), m.group(2)), txt)
+    return new, n
 
 
 def apply_template_rules(files):
@@ -214,10 +209,6 @@ def apply_template_rules(files):
         if mode in ("all", "first") and n < 1:
             return None, rid
         new[fname] = txt.replace(old, repl, 1) if mode == "first" else txt.replace(old, repl)
-    t = flip_byte_comparisons(new["parse.rs"])
-    if t is None:
-        return None, "T15-body"
-    new["parse.rs"] = t
     return new, None
 
 
@@ -284,6 +275,10 @@ def main():
             die("source shape changed at %s: pattern occurs %d times in src/%s" % (rid, n, fname))
         files[fname] = files[fname].replace(old, new)
         applied.append(rid)
+    files["lib.rs"], nshim = shim_wrapped_calls(files["lib.rs"])
+    if nshim < 3:
+        die("source shape changed at R11-R13: only %d calls of the wrapped automaton found in src/lib.rs" % nshim)
+    applied.append("R11-R13(x%d)" % nshim)
     tpl_files, tpl_missing = apply_template_rules(files)
     template_rules = tpl_files is not None
     if template_rules:
